@@ -502,9 +502,9 @@ theorem TInvO.sub {E : Env α} {c : FCtx α} {root : List (Ival α)} {out : List
 theorem TInvO.shape {E : Env α} {c : FCtx α} {root : List (Ival α)} {out : List Nat} {t : Node α} (h : TInvO E c root out t) :
     Shape t := by
   induction h with
-  | leaf d subs rows hN => exact Shape.leaf _ _ _ hN.lenS hN.subsOK.1 hN.subsOK.2
+  | leaf d subs rows hN => exact Shape.leaf _ _ _ ⟨hN.lenS, hN.lenA, hN.subsOK.2.2⟩ hN.subsOK.1 hN.subsOK.2.1
   | branch d subs ch hN hB hC ih =>
-    exact Shape.branch _ _ _ hN.lenS hN.subsOK.1 hN.subsOK.2 hB.keys
+    exact Shape.branch _ _ _ ⟨hN.lenS, hN.lenA, hN.subsOK.2.2⟩ hN.subsOK.1 hN.subsOK.2.1 hB.keys
       (fun p hp => ⟨(hB.child p hp).1, (hB.child p hp).2.1, (hB.child p hp).2.2.2⟩) ih
 
 end
